@@ -1,40 +1,87 @@
 --------------------------- MODULE CollectorStep ---------------------------
-(* Sequential driver schedules for erc.Collector (property C12).  This module  *)
-(* only ENUMERATES what the single-goroutine driver does - Add of a fresh      *)
-(* error, Add(nil), Len, Resolve, Iterator() ("open") and one ReadOne on an    *)
-(* open iterator ("read") in every order, in particular Adds between two reads *)
-(* of the same iterator.  The harness executes each schedule against the real  *)
-(* Collector, records call/ret events with the values the code returned, and   *)
-(* CollectorLinTrace.tla judges the recorded history: the verdict comes from   *)
-(* that module, not from here.                                                 *)
+(* Driver schedules for erc.Collector (property C12).  This module only        *)
+(* ENUMERATES what the driver does - Add of a fresh error, Add(nil), Add of a   *)
+(* typed-nil *ers.Stack ("nstack": nil-like, ignored), Add of a COMPOSITE error *)
+(* made of fresh leaves (op "addc": errors.Join, fmt.Errorf with several %w, an *)
+(* *ers.Stack, the caller's own Unwind()/Unwrap() []error types with nil holes, *)
+(* nested), Len, Resolve, Iterator() ("open") and one ReadOne on an open         *)
+(* iterator ("read") in every order, in particular Adds between two reads of    *)
+(* the same iterator.                                                           *)
+(*                                                                              *)
+(* HOLD steps (the scheduling device for "used from many goroutines"): op       *)
+(* "hold" is an Add of a composite of the driver's own type whose Unwind() /    *)
+(* Unwrap() []error method parks at a gate - i.e. the goroutine executing that  *)
+(* Add is descheduled in the middle of flattening its operand (the method is    *)
+(* harness code, holding it is a schedule, not a fault).  Until "release" every *)
+(* further step is issued on its own goroutine and the driver only waits for    *)
+(* quiescence: the step has returned, or is parked behind the held Add.  An     *)
+(* iterator opened while an Add is held is not read before the release (its     *)
+(* Iterator() call may still be pending).                                       *)
+(*                                                                              *)
+(* The harness executes each schedule against the real Collector, records       *)
+(* call/ret events with the values the code returned, and CollectorLinTrace.tla *)
+(* judges the recorded history: the verdict comes from that module, not here.   *)
 (***************************************************************************)
 EXTENDS Integers, Sequences, FiniteSets, TLC, Json
 
-CONSTANTS MaxAdds, MaxReads, Iters, Depth
+CONSTANTS MaxAdds, MaxReads, Iters, Depth,
+          Ops,        \* step families in use: subset of AllOps
+          Kinds,      \* composite kinds for "addc"
+          Sizes,      \* numbers of fresh leaves in a composite (0 = a composite that lists nothing)
+          HoldKinds,  \* gated composite kinds for "hold"
+          MaxHolds,
+          MaxHeld     \* steps issued while one Add is held (bounds the operations pending at the same time,
+                      \* i.e. the linearisation orders CollectorLinTrace has to try per history)
 
-VARIABLES nadds, open, reads, hist
-vars == <<nadds, open, reads, hist>>
-view == <<nadds, open, reads>>
+AllOps == {"add", "nil", "nstack", "len", "resolve", "open", "read", "addc", "hold"}
+ASSUME Ops \subseteq AllOps
 
-Init == nadds = 0 /\ open = {} /\ reads = [i \in Iters |-> 0] /\ hist = <<>>
+VARIABLES nadds, open, reads, hist, held, popen, nholds, nheld
+vars == <<nadds, open, reads, hist, held, popen, nholds, nheld>>
+view == <<nadds, open, reads, held, popen, nholds, nheld>>
 
-Rec(op, arg) == hist' = Append(hist, [op |-> op, arg |-> arg])
+Init == /\ nadds = 0 /\ open = {} /\ reads = [i \in Iters |-> 0] /\ hist = <<>>
+        /\ held = FALSE /\ popen = {} /\ nholds = 0 /\ nheld = 0
 
-AddFresh == /\ nadds < MaxAdds /\ nadds' = nadds + 1
-            /\ Rec("add", "e" \o ToString(nadds + 1)) /\ UNCHANGED <<open, reads>>
-AddNil   == Rec("add", "nil") /\ UNCHANGED <<nadds, open, reads>>
-LenOp    == Rec("len", "-") /\ UNCHANGED <<nadds, open, reads>>
-Resolve  == Rec("resolve", "-") /\ UNCHANGED <<nadds, open, reads>>
-Open(i)  == /\ i \notin open /\ open' = open \cup {i}
-            /\ Rec("open", i) /\ UNCHANGED <<nadds, reads>>
-Read(i)  == /\ i \in open /\ reads[i] < MaxReads
+Rec(op, arg, ids) == hist' = Append(hist, [op |-> op, arg |-> arg, ids |-> ids])
+Fresh(k) == [i \in 1..k |-> "e" \o ToString(nadds + i)]
+
+AddFresh == /\ "add" \in Ops /\ nadds < MaxAdds /\ nadds' = nadds + 1
+            /\ Rec("add", "e" \o ToString(nadds + 1), <<>>) /\ UNCHANGED <<open, reads, held, popen, nholds>>
+AddNil   == /\ "nil" \in Ops /\ Rec("add", "nil", <<>>) /\ UNCHANGED <<nadds, open, reads, held, popen, nholds>>
+AddNStk  == /\ "nstack" \in Ops /\ Rec("add", "nstack", <<>>) /\ UNCHANGED <<nadds, open, reads, held, popen, nholds>>
+AddComp  == /\ "addc" \in Ops
+            /\ \E kind \in Kinds, k \in Sizes :
+                 /\ nadds + k <= MaxAdds /\ nadds' = nadds + k
+                 /\ Rec("addc", kind, Fresh(k))
+            /\ UNCHANGED <<open, reads, held, popen, nholds>>
+LenOp    == /\ "len" \in Ops /\ Rec("len", "-", <<>>) /\ UNCHANGED <<nadds, open, reads, held, popen, nholds>>
+Resolve  == /\ "resolve" \in Ops /\ Rec("resolve", "-", <<>>) /\ UNCHANGED <<nadds, open, reads, held, popen, nholds>>
+Open(i)  == /\ "open" \in Ops /\ i \notin open /\ open' = open \cup {i}
+            /\ popen' = IF held THEN popen \cup {i} ELSE popen
+            /\ Rec("open", i, <<>>) /\ UNCHANGED <<nadds, reads, held, nholds>>
+Read(i)  == /\ "read" \in Ops /\ i \in open /\ i \notin popen /\ reads[i] < MaxReads
             /\ reads' = [reads EXCEPT ![i] = @ + 1]
-            /\ Rec("read", i) /\ UNCHANGED <<nadds, open>>
+            /\ Rec("read", i, <<>>) /\ UNCHANGED <<nadds, open, held, popen, nholds>>
+Hold     == /\ "hold" \in Ops /\ ~held /\ nholds < MaxHolds
+            /\ \E kind \in HoldKinds, k \in Sizes \ {0} :
+                 /\ nadds + k <= MaxAdds /\ nadds' = nadds + k
+                 /\ Rec("hold", kind, Fresh(k))
+            /\ held' = TRUE /\ nholds' = nholds + 1 /\ UNCHANGED <<open, reads, popen>>
+Release  == /\ held /\ held' = FALSE /\ popen' = {}
+            /\ Rec("release", "-", <<>>) /\ UNCHANGED <<nadds, open, reads, nholds>>
 
-Step == AddFresh \/ AddNil \/ LenOp \/ Resolve \/ \E i \in Iters : Open(i) \/ Read(i)
+Other == \/ AddFresh \/ AddNil \/ AddNStk \/ AddComp \/ LenOp \/ Resolve
+         \/ \E i \in Iters : Open(i) \/ Read(i)
+Step == \/ ~held /\ (Other \/ Hold) /\ nheld' = 0
+        \/ held /\ nheld < MaxHeld /\ Other /\ nheld' = nheld + 1
+        \/ Release /\ nheld' = 0
 Next == Len(hist) < Depth /\ Step
 Spec == Init /\ [][Next]_vars
 
 EmitAll  == Len(hist) < Depth \/ PrintT(<<"BEH", ToJson(hist)>>)
+\* schedules with at least one hold (everything else is covered by the hold-free configurations);
+\* a hold that is still pending at the end is released by the driver before the final observation
+EmitHeld == Len(hist) < Depth \/ nholds = 0 \/ PrintT(<<"BEH", ToJson(hist)>>)
 EmitEdge == PrintT(<<"BEH", ToJson(hist')>>)
 =============================================================================
